@@ -414,6 +414,102 @@ SPECS = {
             },
         ],
     },
+    "Swarm": {
+        "source": "artap/algorithm_swarm.py",
+        "serves": ["C18", "C08"],
+        "imports": ["ArtapModel.Model.Swarm"],
+        "prelude": """
+/-- a particle as `update_position` sees it: `individual.vector` and `individual.features['velocity']` -/
+structure Particle where
+  vector : List Rat
+  velocity : List Rat
+
+/-- a particle as `update_particle_best` sees it: `costs_signed`, `features['best_cost']`, `vector`,
+`features['best_vector']` (κ: signed cost vectors, V: design vectors; both are only moved around) -/
+structure PBest (κ V : Type) where
+  costs_signed : κ
+  best_cost : κ
+  vector : V
+  best_vector : V
+""",
+        "functions": [
+            {
+                "py": "SwarmAlgorithm.speed_constriction", "lean": "speed_constriction",
+                "py_params": ["velocity", "u_bound", "l_bound"],
+                "params": [("velocity", "Rat"), ("u_bound", "Rat"), ("l_bound", "Rat")],
+                "vars": {"velocity": "Rat", "u_bound": "Rat", "l_bound": "Rat"}, "mutable_params": ["velocity"],
+                "ret": "Rat",
+            },
+            {   # `population` is a list of record values PBest (distinct objects: CopySelector / the generator build a
+                # fresh object per particle); the comparator verdict on (costs_signed, best_cost) is the parameter cmp.
+                # `features['best_cost']` is a cost vector (init_pbest has run): the call with best_cost = None raises a
+                # TypeError inside the comparator and is outside the model.  The result gives the attribute *values* at
+                # return; that best_vector then is the same list object as vector is not represented.
+                "py": "SwarmAlgorithm.update_particle_best", "lean": "update_particle_best",
+                "header": "{κ V : Type}",
+                "py_params": ["self", "population"],
+                "params": [("cmp", "κ → κ → Nat"), ("population", L("PBest"))],
+                "state": {"population": ("population", L("PBest"))},
+                "objects": {"PBest": "every particle of a swarm is an object of its own"},
+                "lean_types": {"PBest": "(PBest κ V)", "PBest#features": "(PBest κ V)"},
+                "types": {
+                    "PBest": {".costs_signed": ("{0}.costs_signed", "κ"), ".vector": ("{0}.vector", "V"),
+                              ".features": ("{0}", "PBest#features")},
+                    "PBest#features": {
+                        "['best_cost']": ("{0}.best_cost", "κ", "{{ {0} with best_cost := {1} }}"),
+                        "['best_vector']": ("{0}.best_vector", "V", "{{ {0} with best_vector := {1} }}")},
+                },
+                "calls": {"self.dominance.compare": {"fn": "cmp", "args": ["κ", "κ"], "ret": "Nat"}},
+                "ret": "Unit", "raises": False, "none_ret": "()",
+                "result": ("{population}", L("PBest")),
+            },
+        ] + [
+            {   # `individuals` is a list of record values Particle (distinct objects), `self.parameters` the list of
+                # (lower, upper) bounds (`parameter['bounds'][0]`, `parameter['bounds'][1]`); IndexError (velocity
+                # shorter than the coordinates visited) is `none`
+                "py": "%s.update_position" % cls, "lean": "%s_update_position" % cls,
+                "py_params": ["self", "individuals"],
+                "params": [("params", L("Param")), ("individuals", L("Particle"))],
+                "state": {"individuals": ("individuals", L("Particle"))},
+                "objects": {"Particle": "every particle of a swarm is an object of its own"},
+                "bind": {"self.parameters": ("params", L("Param"))},
+                "lean_types": {"Param": "(Rat × Rat)", "Param#bounds": "(Rat × Rat)", "Particle#features": "Particle"},
+                "types": {
+                    "Particle": {".vector": ("{0}.vector", L("Rat"), "{{ {0} with vector := {1} }}"),
+                                 ".features": ("{0}", "Particle#features")},
+                    "Particle#features": {"['velocity']": ("{0}.velocity", L("Rat"), "{{ {0} with velocity := {1} }}")},
+                    "Param": {"['bounds']": ("{0}", "Param#bounds")},
+                    "Param#bounds": {"[0]": ("{0}.1", "Rat"), "[1]": ("{0}.2", "Rat")},
+                },
+                "ret": "Unit", "raises": True, "none_ret": "()",
+                "result": ("{individuals}", L("Particle")),
+            } for cls in ("OMOPSO", "SMPSO", "PSOGA")
+        ],
+    },
+    "Truncate": {
+        "source": "artap/archive.py",
+        "serves": ["C04", "C18"],
+        "imports": ["ArtapModel.Model.Archive"],
+        "functions": [
+            {   # generic in the element type; `x.features[getter]` is the parameter feat (the model's total feature
+                # function: every member carries the feature, a KeyError is outside the model; the keys are compared
+                # as integers - doubles travel through the order embedding, regime R1); `size` is a natural number
+                # (max_population_size; a negative slice bound would count from the end)
+                "py": "Archive.truncate", "lean": "Archive_truncate",
+                "header": "{α : Type}",
+                "py_params": ["self", "size", "getter", "larger_preferred"], "allow_defaults": True,
+                "params": [("feat", "α → Int"), ("contents", L("α")), ("size", "Nat"), ("larger_preferred", "Bool")],
+                "vars": {"size": "Nat", "larger_preferred": "Bool"},
+                "state": {"self._contents": ("contents", L("α"))},
+                "types": {"α": {".features": ("{0}", "α#features")},
+                          "α#features": {"[getter]": ("(feat {0})", "Int")}},
+                "lean_types": {"α#features": "α"},
+                "sort": "Int",
+                "ret": "Unit", "raises": True,
+                "result": ("{contents}", L("α")),
+            },
+        ],
+    },
     "Variation": {
         "source": "artap/operators.py",
         "serves": ["C08"],
